@@ -21,6 +21,7 @@ Helper lemmas: `Proofs/DkgStep.lean`, `DkgResp.lean`, `DkgScript.lean`, `DkgFini
 `DkgSafety.lean`, `DkgMember.lean`.
 -/
 import DosModel.Proofs.DkgMember
+import DosModel.Model.DkgNet
 import Mathlib.Algebra.Order.Field.Rat
 
 set_option linter.unusedSectionVars false
@@ -152,6 +153,15 @@ def exRun : List (Member ℚ ℚ) :=
 
 -- 2a/2c/3: the machines reach the dealing stage (the invariant's non-trivial branch is inhabited)
 example : exRun.map (fun m => match m.stage with | .waitDeals _ => true | _ => false) = [true, true, true] := by
+  decide +kernel
+-- 3: a complete run of the three machines: all finish, in states to which `safety` applies, with one key
+def exCfg : Cfg ℚ ℚ := { g := 1, longs := [5, 7, 9], polys := [[4, 2], [6, 1], [3, 8]] }
+def exSched : List Ev :=
+  let pairs := [(0, 1), (0, 2), (1, 0), (1, 2), (2, 0), (2, 1)]
+  [.start 0, .start 1, .start 2] ++ pairs.map (fun p => Ev.pk p.1 p.2) ++ pairs.map (fun p => Ev.deal p.1 p.2) ++
+    pairs.map (fun p => Ev.resps p.1 p.2)
+example : (runEvents exCfg [[11, 12, 13], [21, 22, 23], [31, 32, 33]] exSched).ms.map
+    (fun m => match m.stage with | .done _ ks => some ks.commits | _ => none) = [some [13, 11], some [13, 11], some [13, 11]] := by
   decide +kernel
 end Examples
 
